@@ -367,7 +367,6 @@ def job_groups_concrete(d, max_groups=3, max_size=3):
 
 def job_misc():
     res = _new()
-    import gemclus  # noqa
     lin = loader.real("linear._linear_geminis")
     tree = loader.real("tree.kauri")
     dg = loader.real("tree.douglas")
@@ -393,7 +392,8 @@ def job_misc():
         checks.append((f"Douglas: feature_mask of length {L} for 3 features {'accepted' if want else 'rejected'}", ok == want and (want or not hasattr(d, "labels_"))))
     for name in gu.AVAILABLE_GEMINIS:
         checks.append((f"registry name {name!r} accepted", _verdict(lambda name=name: gu._str_to_gemini(name))))
-    for name in ("kl", "mmd", "MI", "", "wasserstein"):
+    near = ["kl", "mmd", "MI", "", "wasserstein"] + [f"{a}{sep}{b}" for a in ("mi", "kl", "tv", "mmd", "chi2", "hellinger", "wasserstein") for sep in ("_", "-", "") for b in ("ova", "ovo", "", "ovr")]
+    for name in sorted(set(near) - set(DOCUMENTED_GEMINIS)):
         checks.append((f"registry name {name!r} rejected", rejects(lambda name=name: gu._str_to_gemini(name))))
     # unknown options / wrong types on estimators, and no fitted model afterwards
     for kw in (dict(solver="lbfgs"), dict(gemini="nope"), dict(n_clusters=2.0), dict(n_clusters="3"), dict(max_iter=0), dict(learning_rate=0), dict(batch_size=0), dict(verbose=1)):
@@ -479,7 +479,19 @@ def job_crosshair(timeout_per_condition=40):
                 else:
                     o["verdict"] = "inconclusive"
             else:
-                o["verdict"] = "inconclusive"
+                mr = re.search(r"registry_accept_iff_listed\((?:name\s*=\s*)?(\'(?:[^\'\\]|\\.)*\'|\"(?:[^\"\\]|\\.)*\")\)", msg)
+                rep = None
+                if mr:
+                    import ast
+                    try:
+                        rep = {"kind": "registry", "name": ast.literal_eval(mr.group(1))}
+                    except Exception:
+                        rep = None
+                if rep is not None and replay(rep):
+                    res["violations"].append({"signature": f"{PROP}:registry:{'accepts-unlisted' if rep['name'] not in DOCUMENTED_GEMINIS else 'rejects-listed'}",
+                                              "what": f"CrossHair: _str_to_gemini({rep['name']!r}) decided wrongly (documented names: {sorted(DOCUMENTED_GEMINIS)})", "replay": rep})
+                else:
+                    o["verdict"] = "inconclusive"
         else:
             res["obligations"].append({"name": "crosshair/" + nm, "verdict": "unknown", "how": msg[:200]})
     for key, nm in names.items():
@@ -490,8 +502,22 @@ def job_crosshair(timeout_per_condition=40):
     return res
 
 
+DOCUMENTED_GEMINIS = {"mmd_ova", "mmd_ovo", "wasserstein_ova", "wasserstein_ovo", "kl_ova", "kl_ovo", "mi", "tv_ova", "tv_ovo",
+                      "hellinger_ova", "hellinger_ovo", "chi2_ova", "chi2_ovo"}
+
+
 def replay(rep, verbose=False):
     kind = rep["kind"]
+    if kind == "registry":
+        gu = loader.real("gemini._utils")
+        try:
+            g = gu._str_to_gemini(rep["name"])
+            acc = g is not None
+        except ValueError:
+            acc = False
+        if verbose:
+            print(f"_str_to_gemini({rep['name']!r}) {'accepted' if acc else 'rejected'}; documented: {rep['name'] in DOCUMENTED_GEMINIS}")
+        return acc != (rep["name"] in DOCUMENTED_GEMINIS)
     if kind == "groups":
         if rep["groups"] is None:
             return True
